@@ -101,21 +101,122 @@ func constObj(info *types.Info, e ast.Expr) types.Object {
 
 // returnedComposite: the named type of a composite literal returned as first
 // result somewhere in the clause body.
+// dxFuncDecl resolves a function of the loaded packages to its declaration
+// (set by runPLYTables; used to look through pass-through helpers).
+var dxFuncDecl func(*types.Func) *ast.FuncDecl
+
+// returnedComposite: the named struct type of the value a clause returns as
+// its first result — a composite literal, a local holding one, or a call of a
+// helper that hands one of its arguments back as its first result
+// (return wrap(PLYValueInt8{...}, err)).
 func returnedComposite(info *types.Info, body []ast.Stmt) *types.Named {
 	var res *types.Named
+	locals := map[types.Object]*types.Named{}
+	litType := func(e ast.Expr) *types.Named {
+		e = ast.Unparen(e)
+		if cl, ok := e.(*ast.CompositeLit); ok {
+			nt, _ := info.TypeOf(cl).(*types.Named)
+			return nt
+		}
+		if id, ok := e.(*ast.Ident); ok {
+			return locals[info.Uses[id]]
+		}
+		return nil
+	}
 	for _, s := range body {
 		ast.Inspect(s, func(n ast.Node) bool {
+			if as, ok := n.(*ast.AssignStmt); ok && len(as.Lhs) == len(as.Rhs) {
+				for i, l := range as.Lhs {
+					if id, ok := l.(*ast.Ident); ok {
+						if nt := litType(as.Rhs[i]); nt != nil {
+							o := info.Defs[id]
+							if o == nil {
+								o = info.Uses[id]
+							}
+							locals[o] = nt
+						}
+					}
+				}
+			}
 			ret, ok := n.(*ast.ReturnStmt)
 			if !ok || len(ret.Results) == 0 {
 				return true
 			}
-			if cl, ok := ast.Unparen(ret.Results[0]).(*ast.CompositeLit); ok {
-				if nt, ok := info.TypeOf(cl).(*types.Named); ok {
-					res = nt
+			if nt := litType(ret.Results[0]); nt != nil {
+				res = nt
+				return true
+			}
+			if call, ok := ast.Unparen(ret.Results[0]).(*ast.CallExpr); ok && dxFuncDecl != nil {
+				if fn := calleeFunc(info, call); fn != nil {
+					if k := passThroughParam(dxFuncDecl(fn)); k >= 0 && k < len(call.Args) {
+						if nt := litType(call.Args[k]); nt != nil {
+							res = nt
+						}
+					}
 				}
 			}
 			return true
 		})
+	}
+	return res
+}
+
+// passThroughParam: the index of the parameter that every value-returning
+// return statement of fd hands back as its first result (other returns give
+// nil there), or -1.
+func passThroughParam(fd *ast.FuncDecl) int {
+	if fd == nil || fd.Body == nil || fd.Type.Params == nil {
+		return -1
+	}
+	idx := map[string]int{}
+	i := 0
+	for _, fl := range fd.Type.Params.List {
+		for _, n := range fl.Names {
+			idx[n.Name] = i
+			i++
+		}
+	}
+	res := -1
+	bad := false
+	ast.Inspect(fd.Body, func(n ast.Node) bool {
+		if _, ok := n.(*ast.FuncLit); ok {
+			return false
+		}
+		ret, ok := n.(*ast.ReturnStmt)
+		if !ok || len(ret.Results) == 0 {
+			return true
+		}
+		id, ok := ast.Unparen(ret.Results[0]).(*ast.Ident)
+		if !ok {
+			bad = true
+			return true
+		}
+		if id.Name == "nil" {
+			return true
+		}
+		k, isParam := idx[id.Name]
+		if !isParam || (res >= 0 && res != k) {
+			bad = true
+			return true
+		}
+		res = k
+		return true
+	})
+	// the parameter must not be assigned in the helper
+	ast.Inspect(fd.Body, func(n ast.Node) bool {
+		if as, ok := n.(*ast.AssignStmt); ok {
+			for _, l := range as.Lhs {
+				if id, ok := l.(*ast.Ident); ok {
+					if k, isParam := idx[id.Name]; isParam && k == res {
+						bad = true
+					}
+				}
+			}
+		}
+		return true
+	})
+	if bad {
+		return -1
 	}
 	return res
 }
@@ -166,6 +267,10 @@ func (c *Ctx) runPLYTables(prefix string) *plyTables {
 		return t
 	}
 	info := p.TypesInfo
+	dxFuncDecl = func(f *types.Func) *ast.FuncDecl {
+		d, _ := c.funcDecl(f)
+		return d
+	}
 	decls := map[string]*ast.FuncDecl{}
 	for _, m := range []string{"Validate", "Size", "Parse", "DecodeBinary"} {
 		fd := findMethodDecl(p, "PLYPropertyType", m)
@@ -616,6 +721,10 @@ func hasLibraryReader(fd *ast.FuncDecl) bool {
 // ioSizes sums the byte sizes moved by binary.Write/binary.Read/io.ReadFull/
 // Write calls in a function.
 func (c *Ctx) ioSizes(p *packages.Package, fd *ast.FuncDecl) (int64, []string) {
+	return c.ioSizesDepth(p, fd, 0)
+}
+
+func (c *Ctx) ioSizesDepth(p *packages.Package, fd *ast.FuncDecl, depth int) (int64, []string) {
 	info := p.TypesInfo
 	total := int64(0)
 	var parts []string
@@ -690,6 +799,19 @@ func (c *Ctx) ioSizes(p *packages.Package, fd *ast.FuncDecl) (int64, []string) {
 			}
 		}
 		if data == nil {
+			// a helper of the same package that does part of the i/o
+			if f := calleeFunc(info, call); f != nil && f.Pkg() == p.Types && depth < 3 {
+				if hd, hp := c.funcDecl(f); hd != nil && hd != fd && hd.Body != nil {
+					if k, hparts := c.ioSizesDepth(hp, hd, depth+1); len(hparts) > 0 {
+						if k < 0 {
+							total = -1 << 40
+						} else {
+							total += k
+						}
+						parts = append(parts, hparts...)
+					}
+				}
+			}
 			return true
 		}
 		k := byteLen(data)
